@@ -152,8 +152,20 @@ def check(run):
         run, "C20", v, keep=lambda s: any(o["op"] == "race" and o["a"]["op"] == "connect" and o["a"].get("client") == "hasty" for o in s["ops"]), tag="hasty")
     validated += rval
     tstates += rts
+    # connection goroutines (set-up worker, reader of each session) share nothing they should not: packets cut into two segments,
+    # with every other session busy in between, are framed as if they had arrived whole (a deterministic form of overlapping reads)
+    from checks import brokerlib
+    sscns = brokerlib.segmented(cuts=(1, 2, 3) if not thorough else (1, 2, 3, 4, 5, 8, 13))
+    stp, crashes = brokerlib.execute(run, sscns, "c20seg", shards=12)
+    if crashes:
+        raise vlib.Inconclusive("broker driver died: %s" % crashes[0][2][-2000:])
+    snev, snscn, sgval, sgrej, sgts = brokerlib.validate(run, "C20", sscns, stp, v)
+    validated += sgval
+    tstates += sgts
     rc = v.finish()
     vlib.write_evidence(run, {
+        "segmented_packets": {"scenarios": len(sscns), "events": snev, "rejections": len(sgrej),
+                              "rule": "a CONNECT / PUBLISH arrives in two segments; between them 21 other sessions ping or connect; BrokerTrace.tla judges the run as usual"},
         "hasty_clients": {"interleavings": rn, "parked_at_their_gate": rparked, "events": rnev, "rejections": rrej},
         "traces_validated_against_impl": validated + sval,
         "evaluations": nhist + nstress,
@@ -185,5 +197,10 @@ def replay(run, path):
         if not ok:
             print("VIOLATION property=C20 replay=%s" % path)
         return 0 if ok else 1
+    if rp.get("kind") == "race":
+        return racelib.replay(run, "C20", path)
+    if rp.get("kind") == "broker":
+        from checks import brokerlib
+        return brokerlib.replay(run, "C20", path)
     print("replay: data races and stress outcomes depend on the schedule; re-run the check (several seeds) to look for it again")
     return check(run)
